@@ -12,6 +12,7 @@ import copy
 import difflib
 import json
 import logging
+import math
 import os
 import pprint
 import re
@@ -4385,10 +4386,11 @@ class FlowIR(object):
 
                 weights.append(stage_weight)
 
-            # VV: adding floats is hard, let's assume that there're at most 2 decimals
-            int_weights = [int(e * 1000) for e in weights]
+            # VV: adding floats is hard, tolerate tiny rounding errors. Weights must be proper fractions
+            #     (this also rejects negative weights, NaN, and inf) which add up to 1.0
+            weights_valid = all(0.0 <= e <= 1.0 for e in weights) and abs(math.fsum(weights) - 1.0) <= 1e-6
 
-            if sum(int_weights) != 1000:
+            if not weights_valid:
                 fallbackWeight = int(1000 / num_stages) / 1000.0
 
                 flowirLogger.log(19, "Stage weights do not add to one: %s = %3.3lf\n" % (weights, sum(weights)))
